@@ -116,6 +116,18 @@ CLAIMED = {
         "O1 and O2 must agree or the case is INCONCLUSIVE. Two deviations pinned by the repository's own unit tests (\\endinput drops the rest of its line; \\ifeof true one read early) are known findings with exact deviation models.",
         "DESIGN.md §6 C19",
     ),
+    "C13": (
+        "runtime monitor: real Hyphenator::calculate_indices on generated pattern sets, exception lists and words, compared with a transcription of Liang's algorithm as TeX defines it (§919-931, §934-940, §960-965) in two formulations (substring hash look-up and linear scan)",
+        "Held on the executions produced: all 9344 single patterns of 1-3 letters over {a,b} with levels {0,1,2,7} and every anchor combination, with and without an exception, on all words of length <=7 in both cases; 5e3 / 2.4e5 random pattern sets (levels 0-9, anchored/nested, multi-byte letters) each on all words of length <=7 plus random words up to 40 letters; 1e4 / 4e5 sets of 17-40-letter patterns around the 16-zero encoding boundary; plain TeX's patterns on 2.6e5 / 6.4e6 words.",
+        "Trusts our transcription of Liang's algorithm, calibrated on the repository's 20 hyphenation words, 3 explanation vectors and the TeXbook Appendix H example. Malformed patterns (a12b, 1.ab), upper-case exceptions and patterns loaded after exceptions are kept out of the generator (DESIGN guard G).",
+        "DESIGN.md §6 C13",
+    ),
+    "C14": (
+        "runtime monitor, conservation checker: horizontal lists built by the real TextPreprocessorImpl are hyphenated by the real pass; (1) deleting inserted discretionaries restores the list node for node, (2) letters conserved at each discretionary, (2b/2c) pre/post-break differential against the same lig/kern runner, (3) positions = Liang positions (C13's model) within the minimums for the words found by a transcription of TeX §894-899; the repository's 33 TeX-verified goldens compared exactly; panic oracle",
+        "Held on the executions produced: exhaustive 16 291 lig/kern programs of <=2 rules x all words of 2-4 letters over {a,b} x all hyphen-position sets (2.4e6 lists), 3e5 / 2e7 cmr10 paragraphs, 6e5 / 4e7 synthetic-font paragraphs with hyphen and boundary rules, minimums 1..4 and hostile values.",
+        "TeX's reconstitute (§905-918) is NOT transcribed: discretionary contents are checked by conservation and the differential, and exactly only on the 33 goldens. Words longer than 63 letters: (3) not demanded. Four TeX-own quirks pinned by the repository's unit tests are excluded from (1) by predicate and counted.",
+        "DESIGN.md §6 C14",
+    ),
 }
 
 NOT_CLAIMED = {}
